@@ -51,6 +51,10 @@ def check_stat(ctx, case):
                     must(case, '%s.compute between batches' % kind, obj.compute)   # must not disturb what follows
         res = must(case, '%s.compute' % kind, obj.compute)
         if case.get('compute_twice'):
+            _first = np.array(res, copy=True)
+            if isinstance(res, np.ndarray) and res.flags.writeable:
+                res[...] = -12345.0            # the caller owns what compute() returned: overwriting it must not change the next answer
+            res = _first
             res2 = must(case, '%s.compute (second call)' % kind, obj.compute)
             if not dist.same(res, res2):
                 raise Violation('%s: two consecutive compute() calls without new data differ' % kind, case)
